@@ -7,10 +7,10 @@ for d in ${@:-seeded/*/}; do
   id="$(basename "$d")"
   prop="$(/venv/bin/python -c "import json;print(json.load(open('$d/meta.json'))['property'])")"
   start=$(date +%s)
-  tools/try_mutant.sh "$d/patch.diff" check "$prop" --tier quick > "$d/.detect.raw" 2>&1
+  tools/try_mutant.sh "$d/patch.diff" check "$prop" --tier quick --first-hit > "$d/.detect.raw" 2>&1
   rc=$?
   {
-    echo "check: ./vf check $prop --tier quick (VERIF_REPO=<scratch worktree with patch.diff>)  exit=$rc  wall=$(( $(date +%s) - start ))s"
+    echo "check: ./vf check $prop --tier quick --first-hit (VERIF_REPO=<scratch worktree with patch.diff>)  exit=$rc  wall=$(( $(date +%s) - start ))s"
     grep -c "^VIOLATION property=$prop" "$d/.detect.raw" | sed 's/^/VIOLATION lines: /'
     grep -A1 "^VIOLATION" "$d/.detect.raw" | grep "engine=" | sed 's/detail=.*//' | sort | uniq -c | sort -rn | head -8
     tail -1 "$d/.detect.raw"
